@@ -15,7 +15,7 @@ IdxKinds == {"m1", "zero", "last", "len"}
 ListOps ==
     [op : {"push", "reverse", "clear", "map", "filter", "len", "indexof_hit", "indexof_miss", "concat", "inner"}, x : LVars]
     \cup [op : {"remove", "read", "set", "opset"}, x : LVars, i : IdxKinds]
-    \cup [op : {"join", "eq"}, x : LVars, y : LVars]
+    \cup [op : {"join", "eq", "joinalias"}, x : {"a", "b"}, y : LVars] \cup [op : {"join", "eq"}, x : {"c"}, y : LVars]
     \cup [op : {"alias", "clone"}, y : {"a", "b"}]          \* c = y   /   c = y.clone()
     \cup [op : {"litfrom"}, x : {"a"}]                       \* c = [a[0], a[1]]  (elements copied, not aliased)
 
@@ -25,6 +25,7 @@ MapOps ==
     [op : {"mset", "mread", "mopset", "replace", "mremove", "contains"}, x : MVars, k : Keys]
     \cup [op : {"mlen", "mclear"}, x : MVars]
     \cup [op : {"malias", "mclone"}, y : {"m", "e"}]
+    \cup [op : {"mlitfrom", "srcset"}]          \* n = map literal whose value is read from a list element; later write to that element
 
 Ops == IF mode = "list" THEN ListOps ELSE MapOps
 
@@ -78,6 +79,8 @@ ListStmts(o, n) ==
                              IF ty \in {"opt", "nest"} THEN Assign(Idx(V(o.x), V("k")), "=", Arg(21 + 2 * n))
                              ELSE Assign(Idx(V(o.x), V("k")), "+", IF ty = "int" THEN I(5) ELSE S("z"))>>
       [] o.op = "join" -> <<Print(MCall(V(o.x), "join", <<V(o.y)>>))>>
+      \* the result of join *is* the receiver: c becomes an alias of x
+      [] o.op = "joinalias" -> <<Let("c", MCall(V(o.x), "join", <<V(o.y)>>)), Print(Bin("is", V("c"), V(o.x)))>>
       [] o.op = "eq" -> <<Print(Bin("==", V(o.x), V(o.y)))>>
       [] o.op = "alias" -> <<Let("c", V(o.y))>>
       [] o.op = "clone" -> <<Let("c", MCall(V(o.y), "clone", <<>>))>>
@@ -105,7 +108,7 @@ ShowM == Fn("showm", <<P("x", MTy)>>, "int",
 ObserveM == <<ExprS(Call(V("showm"), <<V("m")>>)), ExprS(Call(V("showm"), <<V("e")>>)), ExprS(Call(V("showm"), <<V("n")>>))>>
 MapLit(kvs) == [k |-> "map", kt |-> "str", vt |-> (IF ty = "opt" THEN "int?" ELSE "int"), kvs |-> kvs, braces |-> TRUE]
 KV(k, v) == [key |-> S(k), val |-> MVal(v)]
-MapPrologue == <<Let("showm", ShowM),
+MapPrologue == <<Let("showm", ShowM), LetT("src", "[int...]", List(<<I(4), I(6)>>)), Let("z0", I(0)),
                  Let("m", MapLit(IF ty = "opt" THEN <<>> ELSE <<KV("k1", 1), KV("k2", 2)>>))>>
                \o (IF ty = "opt" THEN <<Assign(Idx(V("m"), S("k1")), "=", Nil), Assign(Idx(V("m"), S("k2")), "=", I(2))>> ELSE <<>>)
                \o <<
@@ -121,6 +124,10 @@ MapStmts(o, n) ==
       [] o.op = "contains" -> <<Print(MCall(V(o.x), "contains_key", <<S(o.k)>>))>>
       [] o.op = "mlen" -> <<Print(MCall(V(o.x), "len", <<>>))>>
       [] o.op = "mclear" -> <<ExprS(MCall(V(o.x), "clear", <<>>))>>
+      \* (a literal of `map[str, int?]` does not take an `int` element: there the operation only re-points n)
+      [] o.op = "mlitfrom" -> IF ty = "opt" THEN <<Let("n", MapLit(<<>>))>>
+                              ELSE <<Let("n", MapLit(<<[key |-> S("k1"), val |-> Idx(V("src"), V("z0"))]>>))>>
+      [] o.op = "srcset" -> <<Assign(Idx(V("src"), V("z0")), "=", I(110 + 2 * n))>>
       [] o.op = "malias" -> <<Let("n", V(o.y))>>
       [] o.op = "mclone" -> <<Let("n", MCall(V(o.y), "clone", <<>>))>>
 
